@@ -721,13 +721,13 @@ spec('C12', run=run_c12, search=search_c12,
 # C13 / C14 / C18
 
 
-def misc_pipe(ctx, name, mode, tier=None, seed=None, env=None):
-    if not cargo_build(ctx, 'wide', ['misc']):
+def misc_pipe(ctx, name, mode, tier=None, seed=None, env=None, features='wide'):
+    if not cargo_build(ctx, features, ['misc']):
         return None
     dump = lean_dump(ctx)
     if dump is None:
         return None
-    res = pipe(ctx, name, '{ cat %s; %s %s; }' % (dump, bin_path('misc', False, 'wide'), mode), tier=tier, seed=seed, env=env)
+    res = pipe(ctx, name, '{ cat %s; %s %s; }' % (dump, bin_path('misc', False, features), mode), tier=tier, seed=seed, env=env)
     absorb(ctx, res, name)
     return res
 
@@ -745,6 +745,9 @@ spec('C13', run=run_c13, search=search_with(run_c13),
 
 def run_c14(ctx, tier=None, seed=None):
     misc_pipe(ctx, 'duration', 'dur', tier=tier, seed=seed, env=deep(ctx, tier, VERIF_N=300000))
+    # the conversion compares with `<` and takes a remainder: both have feature-gated twins — the float lines again
+    # from a build without autoconvert
+    misc_pipe(ctx, 'duration-noauto', 'dur', features='fl-noauto', tier=tier, seed=seed, env=deep(ctx, tier, VERIF_N=300000))
 
 
 spec('C14', run=run_c14, search=search_with(run_c14),
